@@ -203,9 +203,12 @@ public:
     validation_errc parse(T&& str_url, TB&& str_base) {
         upa::url base;
         const auto res = base.parse(std::forward<TB>(str_base), nullptr);
-        return res == validation_errc::ok
-            ? parse(std::forward<T>(str_url), &base)
-            : res;
+        if (res != validation_errc::ok) {
+            // as with an invalid base url object: the parse failed, this url is empty
+            clear();
+            return res;
+        }
+        return parse(std::forward<T>(str_url), &base);
     }
 
     /// @brief Checks if a given URL string can be successfully parsed
